@@ -5,8 +5,10 @@
 (* wording of [span.cons], [span.sub], [span.elem], not from the code.       *)
 (*                                                                          *)
 (* `parent` is the sequence of cells the spans look at (a heap buffer, a C   *)
-(* array, a std::array or a std::vector, `mk`).  A view is a window          *)
-(* [off, off+len) of it with a static extent `ext` (-1 = dynamic_extent).    *)
+(* array, a std::array, a std::vector or a user container with data() and   *)
+(* size(), `mk`); every cell is an object of `esz` bytes.  A view is a       *)
+(* window [off, off+len) of it with a static extent `ext` (-1 =              *)
+(* dynamic_extent) and an element type that is const-qualified or not (`c`). *)
 (* `views` is a stack: view 1 is constructed from the memory, view s+1 is a  *)
 (* sub-view (first/last/subspan/copy/conversion) of view s.                  *)
 (*                                                                          *)
@@ -17,9 +19,12 @@
 (* cannot wrap.  dynamic_extent, as an index_type argument, is SIZE_MAX.     *)
 (*                                                                          *)
 (* mode = "throwing": a call whose precondition does not hold must throw the *)
-(* contract violation and produce nothing; mode = "unchecked": such a call   *)
-(* is outside the contract and is not enabled here.  at() throws             *)
-(* std::out_of_range for every index >= size() in both modes.                *)
+(* contract violation and produce nothing; mode = "terminate": it must end   *)
+(* the program (std::terminate) instead of producing anything - the harness  *)
+(* performs the call in a child process and reports "terminated"; mode =     *)
+(* "unchecked": such a call is outside the contract and is not enabled here. *)
+(* at() throws std::out_of_range for every index >= size() in every mode.    *)
+(* Which mode a translation unit gets is SpanMode.tla.                       *)
 (***************************************************************************)
 EXTENDS Integers, Sequences, FiniteSets, TLC, Json
 
@@ -32,14 +37,15 @@ CONSTANTS Modes,     \* modes explored by the model checker
           Classes,   \* operation classes enabled in the model checker's next-state relation
           EmitOps    \* S->C: operations whose transitions are written out as JSON (see Emit)
 
-VARIABLES mode,    \* "unchecked" | "throwing"
-          mk,      \* kind of parent memory: "heap" | "carray" | "stdarray" | "vector"
+VARIABLES mode,    \* "unchecked" | "throwing" | "terminate"
+          esz,     \* sizeof(element_type)
+          mk,      \* kind of parent memory: "heap" | "carray" | "stdarray" | "vector" | "box"
           parent,  \* the cells
-          views,   \* stack of [off, len, ext]
+          views,   \* stack of [off, len, ext, c]
           last, pre
 
-vars == <<mode, mk, parent, views, last, pre>>
-absvars == <<mode, mk, parent, views>>
+vars == <<mode, esz, mk, parent, views, last, pre>>
+absvars == <<mode, esz, mk, parent, views>>
 
 DYN == -1
 N == Len(parent)
@@ -52,19 +58,24 @@ ArgLeq(x, m) == x.t = "s" /\ x.v <= m   \* SIZE_MAX - d is larger than every siz
 ArgLt(x, m)  == x.t = "s" /\ x.v < m
 IsDyn(x)     == x.t = "h" /\ x.v = 0
 
-Throwing == mode = "throwing"
+AllModes == {"unchecked", "throwing", "terminate"}
+MemKinds == {"heap", "carray", "stdarray", "vector", "box"}
+ArrayKinds == {"carray", "stdarray"}          \* the size is part of the type
+ContKinds == {"vector", "box"}                \* data() and size() are asked at run time
+Checking == mode \in {"throwing", "terminate"}
 
 ----------------------------------------------------------------------------
-View(o, l, e) == [off |-> o, len |-> l, ext |-> e]
+View(o, l, e, c) == [off |-> o, len |-> l, ext |-> e, c |-> c]
 Elems(v) == SubSeq(parent, v.off + 1, v.off + v.len)
 RevSeq(s) == [i \in 1..Len(s) |-> s[Len(s) + 1 - i]]
 
 (* What every observer reports about one view (compared after each call) *)
 ProjV(v) ==
     [ext   |-> v.ext,                \* the static extent of the C++ type
+     c     |-> v.c,                  \* std::is_const<element_type>
      off   |-> v.off,                \* data() - start of the parent memory
      size  |-> v.len,                \* size()
-     bytes |-> 4 * v.len,            \* size_bytes()  (int elements)
+     bytes |-> esz * v.len,          \* size_bytes()
      empty |-> v.len = 0,            \* empty()
      dist  |-> v.len,                \* end() - begin()
      elems |-> Elems(v),             \* operator[] for every index < size()
@@ -76,96 +87,87 @@ Ok(v)  == [exc |-> "none", val |-> v]
 Exc(e) == [exc |-> e, val |-> <<>>]
 Void   == Ok(<<>>)
 NoArg  == [z |-> 0]
+(* how a checking build reports a violated precondition *)
+Rejected == Exc(IF mode = "throwing" THEN "contract" ELSE "terminated")
 
 Step(op, a, res, newviews, newparent) ==
     /\ pre' = [parent |-> parent, views |-> views, mk |-> mk]
     /\ last' = [op |-> op, a |-> a, res |-> res]
     /\ views' = newviews
     /\ parent' = newparent
-    /\ UNCHANGED <<mode, mk>>
+    /\ UNCHANGED <<mode, esz, mk>>
 Obs(op, a, res) == Step(op, a, res, views, parent)
-(* a call with precondition `ok` producing `newviews`: in throwing mode a violated precondition
+(* a call with precondition `ok` producing `newviews`: in a checking mode a violated precondition
    must be reported and change nothing; in unchecked mode the call is then outside the contract *)
 Checked(op, a, ok, res, newviews) ==
     IF ok THEN Step(op, a, res, newviews, parent)
-          ELSE Throwing /\ Obs(op, a, Exc("contract"))
+          ELSE Checking /\ Obs(op, a, Rejected)
 Push(s, v) == Append(SubSeq(views, 1, s), v)
 HasView(s) == s \in 1..Len(views)
 
 ----------------------------------------------------------------------------
 (* New parent memory of the given kind; all views are dropped. *)
 Mem(kind, cells) ==
-    /\ kind \in {"heap", "carray", "stdarray", "vector"}
+    /\ kind \in MemKinds
     /\ kind = "carray" => Len(cells) >= 1
     /\ pre' = [parent |-> parent, views |-> views, mk |-> mk]
     /\ last' = [op |-> "Mem", a |-> [kind |-> kind, cells |-> cells], res |-> Void]
-    /\ mk' = kind /\ parent' = cells /\ views' = <<>> /\ UNCHANGED mode
+    /\ mk' = kind /\ parent' = cells /\ views' = <<>> /\ UNCHANGED <<mode, esz>>
 
 (* [span.cons] *)
-(* span<int, ext>(p + po, cnt) and span<int, ext>(p + po, p + po + cnt): [p+po, p+po+cnt) must be a valid range; *)
-(* for a static extent cnt must equal it *)
-FromPtrCount(po, cnt, ext) ==
-    /\ po + cnt <= N
-    /\ Checked("FromPtrCount", [po |-> po, cnt |-> cnt, ext |-> ext], ext = DYN \/ cnt = ext, Void, <<View(po, cnt, ext)>>)
-FromPtrPair(po, cnt, ext) ==
-    /\ po + cnt <= N
-    /\ Checked("FromPtrPair", [po |-> po, cnt |-> cnt, ext |-> ext], ext = DYN \/ cnt = ext, Void, <<View(po, cnt, ext)>>)
-(* span<int, ext>(arr) for int arr[N] / std::array<int, N>: participates in overload resolution only for ext in {dynamic, N} *)
-FromArray(ext) ==
-    /\ mk = "carray" /\ ext \in {DYN, N}
-    /\ Step("FromArray", [ext |-> ext], Void, <<View(0, N, ext)>>, parent)
-FromStdArray(ext) ==
-    /\ mk = "stdarray" /\ ext \in {DYN, N}
-    /\ Step("FromStdArray", [ext |-> ext], Void, <<View(0, N, ext)>>, parent)
-(* span<int, ext>(container): for a static extent the container's size must equal it *)
-FromContainer(ext) ==
-    /\ mk = "vector"
-    /\ Checked("FromContainer", [ext |-> ext], ext = DYN \/ N = ext, Void, <<View(0, N, ext)>>)
-(* make_span(arr) / make_span(std::array) / make_span(container): static extent N for the arrays, dynamic for containers *)
-MakeSpan ==
-    /\ mk \in {"carray", "stdarray", "vector"}
-    /\ Step("MakeSpan", NoArg, Void, <<View(0, N, IF mk = "vector" THEN DYN ELSE N)>>, parent)
-(* span<int>() / span<int, 0>(): data() == nullptr and size() == 0; reported as <<data() == nullptr, size()>> *)
-Default(ext) ==
-    /\ ext \in {DYN, 0}
-    /\ Step("Default", [ext |-> ext], Ok(<<1, 0>>), <<View(0, 0, ext)>>, parent)
-(* views over const sources (const std::array, const container, span<const int> from span<int>, make_span of const   *)
-(* sources): the harness keeps only mutable views, so these report the constructed view at once:                      *)
-(*   <<extent, data() - base, size(), size_bytes()>> followed by the elements                                          *)
-Flat(v) == <<v.ext, v.off, v.len, 4 * v.len>> \o Elems(v)
-ConstFrom(how, s, ext) ==
-    /\ how \in {"stdarray", "container", "span", "make_stdarray", "make_container", "make_span"}
-    /\ how \in {"stdarray", "make_stdarray"} => mk = "stdarray" /\ s = 0
-    /\ how \in {"container", "make_container"} => mk = "vector" /\ s = 0
-    /\ how \in {"span", "make_span"} => HasView(s)
-    /\ how \in {"make_stdarray", "make_container", "make_span"} => ext = DYN      \* no extent is named in a make_span call
-    /\ LET src == IF s = 0 THEN View(0, N, IF mk = "stdarray" THEN N ELSE DYN) ELSE views[s]
-           e   == CASE how = "make_stdarray" -> N
-                    [] how = "make_container" -> DYN
-                    [] how = "make_span" -> src.ext
-                    [] OTHER -> ext
-       IN /\ how \in {"stdarray", "span"} => ext \in {DYN, src.ext}
-          /\ Checked("ConstFrom", [how |-> how, s |-> s, ext |-> ext], e = DYN \/ src.len = e,
-                     Ok(Flat(View(src.off, src.len, e))), views)
-(* copy construction and copy assignment of a view *)
+(* span<T, ext>(p + po, cnt) and span<T, ext>(p + po, p + po + cnt) (T = int or const int, `c`): [p+po, p+po+cnt) must *)
+(* be a valid range; for a static extent cnt must equal it                                                             *)
+FromPtrCount(po, cnt, ext, c) ==
+    /\ po + cnt <= N /\ c \in BOOLEAN
+    /\ Checked("FromPtrCount", [po |-> po, cnt |-> cnt, ext |-> ext, c |-> c], ext = DYN \/ cnt = ext, Void, <<View(po, cnt, ext, c)>>)
+FromPtrPair(po, cnt, ext, c) ==
+    /\ po + cnt <= N /\ c \in BOOLEAN
+    /\ Checked("FromPtrPair", [po |-> po, cnt |-> cnt, ext |-> ext, c |-> c], ext = DYN \/ cnt = ext, Void, <<View(po, cnt, ext, c)>>)
+(* span<T, ext>(arr) for int arr[N] / std::array<int, N> (c: the array is seen through a const reference and T is *)
+(* const int): participates in overload resolution only for ext in {dynamic, N}                                     *)
+FromArray(ext, c) ==
+    /\ mk = "carray" /\ ext \in {DYN, N} /\ c \in BOOLEAN
+    /\ Step("FromArray", [ext |-> ext, c |-> c], Void, <<View(0, N, ext, c)>>, parent)
+FromStdArray(ext, c) ==
+    /\ mk = "stdarray" /\ ext \in {DYN, N} /\ c \in BOOLEAN
+    /\ Step("FromStdArray", [ext |-> ext, c |-> c], Void, <<View(0, N, ext, c)>>, parent)
+(* span<T, ext>(container): for a static extent the container's size must equal it *)
+FromContainer(ext, c) ==
+    /\ mk \in ContKinds /\ c \in BOOLEAN
+    /\ Checked("FromContainer", [ext |-> ext, c |-> c], ext = DYN \/ N = ext, Void, <<View(0, N, ext, c)>>)
+(* make_span(arr) / make_span(std::array) / make_span(container), of the object or of a const reference to it: *)
+(* static extent N for the arrays, dynamic for containers                                                       *)
+MemExt == IF mk \in ContKinds THEN DYN ELSE N
+MakeSpan(c) ==
+    /\ mk \in ArrayKinds \cup ContKinds /\ c \in BOOLEAN
+    /\ Step("MakeSpan", [c |-> c], Void, <<View(0, N, MemExt, c)>>, parent)
+(* C++17 class template argument deduction: span s(arr), span s(std_array), span s(container) (and of const references) *)
+Deduce(c) ==
+    /\ mk \in ArrayKinds \cup ContKinds /\ c \in BOOLEAN
+    /\ Step("Deduce", [c |-> c], Void, <<View(0, N, MemExt, c)>>, parent)
+(* span<T>() / span<T, 0>(): data() == nullptr and size() == 0; reported as <<data() == nullptr, size()>> *)
+Default(ext, c) ==
+    /\ ext \in {DYN, 0} /\ c \in BOOLEAN
+    /\ Step("Default", [ext |-> ext, c |-> c], Ok(<<1, 0>>), <<View(0, 0, ext, c)>>, parent)
+(* copy construction, copy assignment of a view, make_span(span) *)
 Copy(s, how) ==
-    /\ HasView(s) /\ how \in {"ctor", "assign"}
+    /\ HasView(s) /\ how \in {"ctor", "assign", "make_span"}
     /\ Step("Copy", [s |-> s, how |-> how], Void, Push(s, views[s]), parent)
-(* converting constructor span<int, toext>(span<int, E>): only for toext in {E, dynamic} *)
-Convert(s, toext) ==
-    /\ HasView(s) /\ toext \in {DYN, views[s].ext}
-    /\ Step("Convert", [s |-> s, ext |-> toext], Void, Push(s, View(views[s].off, views[s].len, toext)), parent)
+(* converting constructor span<T2, toext>(span<T1, E>): only for toext in {E, dynamic} and never dropping const *)
+Convert(s, toext, toc) ==
+    /\ HasView(s) /\ toext \in {DYN, views[s].ext} /\ toc \in BOOLEAN /\ (views[s].c => toc)
+    /\ Step("Convert", [s |-> s, ext |-> toext, c |-> toc], Void, Push(s, View(views[s].off, views[s].len, toext, toc)), parent)
 
 ----------------------------------------------------------------------------
-(* [span.sub] with run-time arguments: always span<int, dynamic_extent> *)
+(* [span.sub] with run-time arguments: always span<T, dynamic_extent>, T as in the source *)
 First(s, c) ==
     /\ HasView(s)
     /\ LET v == views[s] IN
-       Checked("First", [s |-> s, c |-> c], ArgLeq(c, v.len), Void, Push(s, View(v.off, c.v, DYN)))
+       Checked("First", [s |-> s, c |-> c], ArgLeq(c, v.len), Void, Push(s, View(v.off, c.v, DYN, v.c)))
 Last(s, c) ==
     /\ HasView(s)
     /\ LET v == views[s] IN
-       Checked("Last", [s |-> s, c |-> c], ArgLeq(c, v.len), Void, Push(s, View(v.off + v.len - c.v, c.v, DYN)))
+       Checked("Last", [s |-> s, c |-> c], ArgLeq(c, v.len), Void, Push(s, View(v.off + v.len - c.v, c.v, DYN, v.c)))
 (* subspan(offset, count): requires offset <= size() and (count == dynamic_extent or offset + count <= size()),  *)
 (* on mathematical integers                                                                                       *)
 SubOK(v, o, c) == ArgLeq(o, v.len) /\ (IsDyn(c) \/ ArgLeq(c, v.len - o.v))
@@ -173,47 +175,65 @@ Subspan(s, o, c) ==
     /\ HasView(s)
     /\ LET v == views[s] IN
        Checked("Subspan", [s |-> s, o |-> o, c |-> c], SubOK(v, o, c), Void,
-               Push(s, View(v.off + o.v, IF IsDyn(c) THEN v.len - o.v ELSE c.v, DYN)))
+               Push(s, View(v.off + o.v, IF IsDyn(c) THEN v.len - o.v ELSE c.v, DYN, v.c)))
 (* subspan(offset) with the defaulted count *)
 Subspan1(s, o) ==
     /\ HasView(s)
     /\ LET v == views[s] IN
-       Checked("Subspan1", [s |-> s, o |-> o], ArgLeq(o, v.len), Void, Push(s, View(v.off + o.v, v.len - o.v, DYN)))
+       Checked("Subspan1", [s |-> s, o |-> o], ArgLeq(o, v.len), Void, Push(s, View(v.off + o.v, v.len - o.v, DYN, v.c)))
 
 (* extension: non-member first(t, count), last(t, count), subspan(t, offset[, count]) applied to the parent    *)
 (* memory itself (a C array, std::array or container); they go through make_span(t), the result replaces the *)
 (* view stack.  Their arguments are std::ptrdiff_t: SIZE_MAX - d is passed as -(d+1).                         *)
-MemView == View(0, N, IF mk = "vector" THEN DYN ELSE N)
+MemView == View(0, N, MemExt, FALSE)
 Nm(fn, o, c) ==
-    /\ mk \in {"carray", "stdarray", "vector"}
+    /\ mk \in ArrayKinds \cup ContKinds
     /\ fn \in {"first", "last", "subspan", "subspan1"}
     /\ fn \in {"first", "last"} => o = Small(0)
     /\ fn = "subspan1" => c = DynArg
     /\ LET v == MemView
            a == [fn |-> fn, o |-> o, c |-> c]
-       IN CASE fn = "first"    -> Checked("Nm", a, ArgLeq(c, v.len), Void, <<View(0, c.v, DYN)>>)
-            [] fn = "last"     -> Checked("Nm", a, ArgLeq(c, v.len), Void, <<View(v.len - c.v, c.v, DYN)>>)
-            [] fn = "subspan"  -> Checked("Nm", a, SubOK(v, o, c), Void, <<View(o.v, IF IsDyn(c) THEN v.len - o.v ELSE c.v, DYN)>>)
-            [] fn = "subspan1" -> Checked("Nm", a, ArgLeq(o, v.len), Void, <<View(o.v, v.len - o.v, DYN)>>)
+       IN CASE fn = "first"    -> Checked("Nm", a, ArgLeq(c, v.len), Void, <<View(0, c.v, DYN, FALSE)>>)
+            [] fn = "last"     -> Checked("Nm", a, ArgLeq(c, v.len), Void, <<View(v.len - c.v, c.v, DYN, FALSE)>>)
+            [] fn = "subspan"  -> Checked("Nm", a, SubOK(v, o, c), Void, <<View(o.v, IF IsDyn(c) THEN v.len - o.v ELSE c.v, DYN, FALSE)>>)
+            [] fn = "subspan1" -> Checked("Nm", a, ArgLeq(o, v.len), Void, <<View(o.v, v.len - o.v, DYN, FALSE)>>)
 
-(* [span.sub] with template arguments *)
+(* [span.sub] with template arguments.  Counts are 0..MaxE or one of the two largest values of std::ptrdiff_t, written *)
+(* BigC(0) = PTRDIFF_MAX and BigC(1) = PTRDIFF_MAX - 1 (numbers far above every size of this model): never a valid    *)
+(* count, and Offset + Count then exceeds PTRDIFF_MAX for every Offset > 0 resp. > 1                                  *)
+BigC(d) == 1000000 - d
+BigCs == {BigC(0), BigC(1)}
+StaticCounts == 0..MaxE \cup BigCs
 FirstS(s, C) ==
-    /\ HasView(s) /\ C \in 0..MaxE
+    /\ HasView(s) /\ C \in StaticCounts
     /\ LET v == views[s] IN
-       Checked("FirstS", [s |-> s, C |-> C], C <= v.len, Void, Push(s, View(v.off, C, C)))
+       Checked("FirstS", [s |-> s, C |-> C], C <= v.len, Void, Push(s, View(v.off, C, C, v.c)))
 LastS(s, C) ==
-    /\ HasView(s) /\ C \in 0..MaxE
+    /\ HasView(s) /\ C \in StaticCounts
     /\ LET v == views[s] IN
-       Checked("LastS", [s |-> s, C |-> C], C <= v.len, Void, Push(s, View(v.off + v.len - C, C, C)))
+       Checked("LastS", [s |-> s, C |-> C], C <= v.len, Void, Push(s, View(v.off + v.len - C, C, C, v.c)))
 (* subspan<O, C>(): the result has extent C, or E - O for a static source, or is dynamic *)
 SubSExt(v, O, C) == IF C # DYN THEN C ELSE IF v.ext # DYN THEN v.ext - O ELSE DYN
 SubspanS(s, O, C) ==
-    /\ HasView(s) /\ O \in 0..(MaxE + 1) /\ C \in {DYN} \cup 0..MaxE
+    /\ HasView(s) /\ O \in 0..(MaxE + 1) /\ C \in {DYN} \cup StaticCounts
     /\ LET v == views[s] IN
        /\ SubSExt(v, O, C) >= -1                \* otherwise the return type is ill-formed (does not compile)
-       /\ SubSExt(v, O, C) <= MaxE
+       /\ SubSExt(v, O, C) <= MaxE \/ C \in BigCs
        /\ Checked("SubspanS", [s |-> s, O |-> O, C |-> C], O <= v.len /\ (C = DYN \/ C <= v.len - O), Void,
-                  Push(s, View(v.off + O, IF C = DYN THEN v.len - O ELSE C, SubSExt(v, O, C))))
+                  Push(s, View(v.off + O, IF C = DYN THEN v.len - O ELSE C, SubSExt(v, O, C), v.c)))
+(* extension: the non-member template forms first<C>(t), last<C>(t), subspan<O, C>(t) on the memory object itself *)
+NmS(fn, O, C) ==
+    /\ mk \in ArrayKinds \cup ContKinds
+    /\ fn \in {"first", "last", "subspan"}
+    /\ fn \in {"first", "last"} => O = 0 /\ C \in 0..MaxE
+    /\ fn = "subspan" => O \in 0..(MaxE + 1) /\ C \in {DYN} \cup 0..MaxE
+    /\ LET v == MemView
+           a == [fn |-> fn, O |-> O, C |-> C]
+       IN CASE fn = "first"   -> Checked("NmS", a, C <= v.len, Void, <<View(0, C, C, FALSE)>>)
+            [] fn = "last"    -> Checked("NmS", a, C <= v.len, Void, <<View(v.len - C, C, C, FALSE)>>)
+            [] fn = "subspan" -> /\ SubSExt(v, O, C) >= -1 /\ SubSExt(v, O, C) <= MaxE
+                                 /\ Checked("NmS", a, O <= v.len /\ (C = DYN \/ C <= v.len - O), Void,
+                                            <<View(O, IF C = DYN THEN v.len - O ELSE C, SubSExt(v, O, C), FALSE)>>)
 
 ----------------------------------------------------------------------------
 (* [span.elem] *)
@@ -238,18 +258,28 @@ Back(s) ==
     /\ HasView(s)
     /\ LET v == views[s] IN
        Checked("Back", [s |-> s], v.len > 0, IF v.len > 0 THEN Ok(<<parent[v.off + v.len]>>) ELSE Void, views)
+(* C++17 structured binding of a view with static extent 1..3: auto& [a, b] = sp; names exactly its elements *)
+Bind(s) ==
+    /\ HasView(s) /\ views[s].ext \in 1..3
+    /\ Obs("Bind", [s |-> s], Ok(Elems(views[s])))
 
-(* a write through the view lands in the parent's cell off + i and nowhere else *)
-WritePaths == {"sub", "call", "at", "front", "back", "data", "iter", "riter"}
+(* a write through a view of non-const elements lands in the parent's cell off + i and nowhere else.  Paths: operator[],  *)
+(* operator(), at, front, back, data(), begin(), rbegin(), get<i>, all bytes of the element through as_writable_bytes,    *)
+(* a C++17 structured binding (static extents 1..3)                                                                       *)
+WritePaths == {"sub", "call", "at", "front", "back", "data", "iter", "riter", "get", "wbytes", "sb"}
 Write(s, path, i, x) ==
     /\ HasView(s) /\ path \in WritePaths
     /\ LET v == views[s] IN
+       /\ ~v.c
        /\ i < v.len
        /\ path = "front" => i = 0
        /\ path = "back" => i = v.len - 1
+       /\ path = "get" => i <= MaxE
+       /\ path = "sb" => v.ext \in 1..3
        /\ Step("Write", [s |-> s, path |-> path, i |-> i, x |-> x], Void, views, [parent EXCEPT ![v.off + i + 1] = x])
 
-(* comparison operators: std::equal / std::lexicographical_compare on the two element sequences *)
+(* comparison operators: std::equal / std::lexicographical_compare on the two element sequences, whatever the *)
+(* extents and const-qualifications of the two span types                                                     *)
 RECURSIVE LexLt(_, _)
 LexLt(a, b) == IF Len(b) = 0 THEN FALSE
                ELSE IF Len(a) = 0 THEN TRUE
@@ -263,11 +293,12 @@ Cmp(s, t) ==
        Obs("Cmp", [s |-> s, t |-> t],
            Ok(<<B2I(a = b), B2I(a # b), B2I(LexLt(a, b)), B2I(~LexLt(b, a)), B2I(LexLt(b, a)), B2I(~LexLt(a, b))>>))
 
-(* as_bytes / as_writable_bytes: <<extent in bytes, offset in bytes, size in bytes>> *)
+(* as_bytes / as_writable_bytes (the latter only for non-const elements): <<extent in bytes, offset in bytes, size in bytes>> *)
 AsBytes(s, w) ==
     /\ HasView(s) /\ w \in {0, 1}
     /\ LET v == views[s] IN
-       Obs("AsBytes", [s |-> s, w |-> w], Ok(<<IF v.ext = DYN THEN DYN ELSE 4 * v.ext, 4 * v.off, 4 * v.len>>))
+       /\ w = 1 => ~v.c
+       /\ Obs("AsBytes", [s |-> s, w |-> w], Ok(<<IF v.ext = DYN THEN DYN ELSE esz * v.ext, esz * v.off, esz * v.len>>))
 
 ----------------------------------------------------------------------------
 (* Bounded argument domains for the model checker *)
@@ -279,6 +310,7 @@ Srcs == 1..Len(views)
 
 Init ==
     /\ mode \in Modes
+    /\ esz = 4
     /\ mk = "heap"
     /\ parent = <<>>
     /\ views = <<>>
@@ -288,20 +320,19 @@ Init ==
 C(c) == c \in Classes
 Next ==
     \/ C("mem")  /\ \E kind \in Kinds, n \in 0..MaxN : Mem(kind, Cells(n))
-    \/ C("ctor") /\ \E po \in 0..N, cnt \in 0..N, ext \in Exts(N) : FromPtrCount(po, cnt, ext) \/ FromPtrPair(po, cnt, ext)
-    \/ C("ctor") /\ \E ext \in Exts(N) : FromArray(ext) \/ FromStdArray(ext) \/ FromContainer(ext) \/ Default(ext)
-    \/ C("ctor") /\ MakeSpan
-    \/ C("ctor") /\ \E how \in {"stdarray", "container", "span", "make_stdarray", "make_container", "make_span"}, s \in {0} \cup Srcs, ext \in Exts(N) :
-                       ConstFrom(how, s, ext)
-    \/ C("copy") /\ \E s \in Srcs : (\E how \in {"ctor", "assign"} : Copy(s, how)) \/ (\E e \in Exts(N) : Convert(s, e))
+    \/ C("ctor") /\ \E po \in 0..N, cnt \in 0..N, ext \in Exts(N), c \in BOOLEAN : FromPtrCount(po, cnt, ext, c) \/ FromPtrPair(po, cnt, ext, c)
+    \/ C("ctor") /\ \E ext \in Exts(N), c \in BOOLEAN : FromArray(ext, c) \/ FromStdArray(ext, c) \/ FromContainer(ext, c) \/ Default(ext, c)
+    \/ C("ctor") /\ \E c \in BOOLEAN : MakeSpan(c) \/ Deduce(c)
+    \/ C("copy") /\ \E s \in Srcs : (\E how \in {"ctor", "assign", "make_span"} : Copy(s, how)) \/ (\E e \in Exts(N), c \in BOOLEAN : Convert(s, e, c))
     \/ C("sub")  /\ \E s \in Srcs, c \in CountArgs(N) : First(s, c) \/ Last(s, c)
     \/ C("sub")  /\ \E s \in Srcs, o \in SizeArgs(N), c \in CountArgs(N) : Subspan(s, o, c)
     \/ C("sub")  /\ \E s \in Srcs, o \in SizeArgs(N) : Subspan1(s, o)
     \/ C("sub")  /\ \E fn \in {"first", "last", "subspan", "subspan1"}, o \in SizeArgs(N), c \in CountArgs(N) : Nm(fn, o, c)
-    \/ C("subs") /\ \E s \in Srcs, cc \in 0..MaxE : FirstS(s, cc) \/ LastS(s, cc)
-    \/ C("subs") /\ \E s \in Srcs, oo \in 0..(MaxE + 1), cc \in {DYN} \cup 0..MaxE : SubspanS(s, oo, cc)
+    \/ C("subs") /\ \E s \in Srcs, cc \in StaticCounts : FirstS(s, cc) \/ LastS(s, cc)
+    \/ C("subs") /\ \E s \in Srcs, oo \in 0..(MaxE + 1), cc \in {DYN} \cup StaticCounts : SubspanS(s, oo, cc)
+    \/ C("subs") /\ \E fn \in {"first", "last", "subspan"}, oo \in 0..(MaxE + 1), cc \in {DYN} \cup 0..MaxE : NmS(fn, oo, cc)
     \/ C("elem") /\ \E s \in Srcs, i \in SizeArgs(N) : At(s, i) \/ (\E how \in {"sub", "call", "get"} : Index(s, how, i))
-    \/ C("elem") /\ \E s \in Srcs : Front(s) \/ Back(s)
+    \/ C("elem") /\ \E s \in Srcs : Front(s) \/ Back(s) \/ Bind(s)
     \/ C("write") /\ \E s \in Srcs, path \in WritePaths, i \in 0..N, x \in {7} : Write(s, path, i, x)
     \/ C("cmp")  /\ \E s \in Srcs, t \in Srcs : Cmp(s, t)
     \/ C("cmp")  /\ \E s \in Srcs, w \in {0, 1} : AsBytes(s, w)
@@ -314,11 +345,11 @@ SrcBound == Len(views) <= MaxDepth /\ parent = Cells(N)
 (* S->C enumeration: every transition out of a state is written as one JSON line (pre-state and call); *)
 (* calls that do not depend on the kind of memory are written for heap memory only, and calls on a     *)
 (* view only while it is the top of the stack (below the top it was the top of a shorter stack)        *)
-MemOps == {"FromArray", "FromStdArray", "FromContainer", "MakeSpan", "ConstFrom", "Nm"}
-TopOnly == ("s" \notin DOMAIN last'.a) \/ last'.a.s \in {0, Len(views)}
+MemOps == {"FromArray", "FromStdArray", "FromContainer", "MakeSpan", "Deduce", "Nm", "NmS"}
+TopOnly == ("s" \notin DOMAIN last'.a) \/ last'.a.s = Len(views)
 (* calls that build a view from the memory do not depend on the views already there: written once, from the empty stack *)
-CtorOps == {"FromPtrCount", "FromPtrPair", "FromArray", "FromStdArray", "FromContainer", "MakeSpan", "Default", "Nm"}
-FreshOnly == (last'.op \in CtorOps \/ (last'.op = "ConstFrom" /\ last'.a.s = 0)) => views = <<>>
+CtorOps == {"FromPtrCount", "FromPtrPair", "FromArray", "FromStdArray", "FromContainer", "MakeSpan", "Deduce", "Default", "Nm", "NmS"}
+FreshOnly == last'.op \in CtorOps => views = <<>>
 Emit == /\ (last'.op \in EmitOps /\ (mk = "heap" \/ last'.op \in MemOps) /\ TopOnly /\ FreshOnly) =>
             PrintT("@E@" \o ToJson([m |-> mode, p |-> pre', l |-> [op |-> last'.op, a |-> last'.a]]))
 
@@ -332,21 +363,31 @@ SpecB == Init /\ [][NextB]_vars
 ----------------------------------------------------------------------------
 (* Theorems of the specification itself *)
 TypeOK ==
-    /\ mode \in {"unchecked", "throwing"} /\ mk \in {"heap", "carray", "stdarray", "vector"}
-    /\ \A i \in 1..Len(views) : views[i].off \in Nat /\ views[i].len \in Nat /\ views[i].ext \in {DYN} \cup Nat
+    /\ mode \in AllModes /\ mk \in MemKinds /\ esz \in Nat \ {0}
+    /\ \A i \in 1..Len(views) : views[i].off \in Nat /\ views[i].len \in Nat /\ views[i].ext \in {DYN} \cup Nat /\ views[i].c \in BOOLEAN
 (* every view lies inside the parent; a static extent is the size; a sub-view lies inside the view it was taken from *)
+(* and never loses a const qualification                                                                             *)
 Inside == \A i \in 1..Len(views) : LET v == views[i] IN
     /\ v.off + v.len <= N
     /\ v.ext # DYN => v.ext = v.len
-    /\ i > 1 => views[i - 1].off <= v.off /\ v.off + v.len <= views[i - 1].off + views[i - 1].len
-ObserverOps == {"At", "Index", "Front", "Back", "Cmp", "AsBytes", "ConstFrom"}
+    /\ i > 1 => /\ views[i - 1].off <= v.off /\ v.off + v.len <= views[i - 1].off + views[i - 1].len
+                /\ views[i - 1].c => v.c
+ObserverOps == {"At", "Index", "Front", "Back", "Cmp", "AsBytes", "Bind"}
 ObserversPure == [][last'.op \in ObserverOps => views' = views /\ parent' = parent]_vars
 FailedChangesNothing == [][last'.res.exc # "none" => views' = views /\ parent' = parent]_vars
-(* contract violations are only ever reported in throwing mode *)
-ContractOnlyWhenThrowing == [][last'.res.exc = "contract" => mode = "throwing"]_vars
-(* only Mem and Write change the cells, and Write exactly one cell inside the view written through *)
+(* contract violations are only ever reported by a checking build, and in the way of its mode *)
+ContractOnlyWhenChecking == [][/\ last'.res.exc = "contract" => mode = "throwing"
+                              /\ last'.res.exc = "terminated" => mode = "terminate"]_vars
+(* only Mem and Write change the cells, and Write exactly one cell inside a non-const view written through *)
 WriteLaw == [][(last'.op \notin {"Mem", "Write"} => parent' = parent) /\
                (last'.op = "Write" =>
                    LET v == views[last'.a.s] IN
-                     \A j \in 1..N : parent'[j] # parent[j] => j = v.off + last'.a.i + 1 /\ j > v.off /\ j <= v.off + v.len)]_vars
+                     /\ ~v.c
+                     /\ \A j \in 1..N : parent'[j] # parent[j] => j = v.off + last'.a.i + 1 /\ j > v.off /\ j <= v.off + v.len)]_vars
+(* the three modes agree on every call inside the contract (checking never changes what a valid call does): *)
+(* a step whose result is not a rejection does not depend on the mode - by construction of Checked, stated  *)
+(* here as: a non-rejected step of an observer or sub-view call yields a window inside its source           *)
+SubInsideSource == [][(last'.res.exc = "none" /\ "s" \in DOMAIN last'.a /\ last'.op \notin {"Write", "Cmp"} /\ Len(views') > last'.a.s) =>
+                        LET src == views[last'.a.s]  nv == views'[last'.a.s + 1] IN
+                          src.off <= nv.off /\ nv.off + nv.len <= src.off + src.len]_vars
 =============================================================================
